@@ -263,6 +263,34 @@ def run(ctx, progs):
                    + ("no path performs two of them" if not twice else
                       f"`{twice[0][0][2].split('::')[-1]}` and `{twice[0][1][2].split('::')[-1]}` lie on one path: one guest buffer is moved in two transfers (an aligned access may be torn)"))
         ctx.floor("R6.9.single_shot_methods", n9, 8, MIN=5)
+        # ------------------------------------------------------------ R6.10 element loops never run over byte elements
+        # a per-element loop of volatile accesses (VolatileArrayRef::copy_to / copy_from and the like) issues one access per element; for
+        # 1-byte elements that would turn an aligned 2/4/8-byte transfer into single-byte accesses. Every such loop must therefore be
+        # reachable only when size_of::<T>() != 1 — byte arrays of ANY length take the width routine.
+        n10 = 0
+        for b in prog.bodies:
+            if b.kind == "Promoted" or b.key.startswith("volatile_memory::copy_slice_impl::"):
+                continue
+            loop_blocks = set()
+            hdrs = {}
+            for (u, v) in b.loops():
+                hdrs.setdefault(v, []).append(u)
+            for h, ls in hdrs.items():
+                loop_blocks |= {h} | {x for x in b.live_blocks() if x != h and any(u in b.reachable(x, removed_nodes=(h,)) for u in ls)}
+            for c in b.calls():
+                cn = canon(c.target or "")
+                if not (cn.endswith("ptr::read_volatile") or cn.endswith("ptr::write_volatile")) or c.bb not in loop_blocks:
+                    continue
+                targs = [a.s for a in c.callee_args()] if c.callee_args() else []
+                if not targs or not re.search(r"\bT\b", targs[0]):
+                    continue
+                n10 += 1
+                fs = b.facts_at(c.pos)
+                ok = any(r[0] == 'cmp' and ((r[1] == 'Ne' and {is_call(unref(r[2]), "size_of"), is_call(unref(r[3]), "size_of")} == {True, False} and ('const', 1) in (unref(r[2]), unref(r[3])))
+                                            or (r[1] in ('Gt', 'Ge') and is_call(unref(r[2]), "size_of") and unref(r[3])[0] == 'const' and unref(r[3])[1] >= (1 if r[1] == 'Gt' else 2))) for r in fs)
+                ctx.ob("R6.10.no_byte_element_loop", f"{b.key}|{cn.split('::')[-1]}", ok, c.where(),
+                       f"per-element volatile access of `{targs[0]}` inside a loop: dominated by size_of::<T>() != 1 [{ok}] (1-byte elements must always go through the width routine, whatever the length)")
+        ctx.floor("R6.10.element_loops", n10, 2, MIN=2)
     ctx.not_decided = ["what a concurrent observer sees (schedules)", "codegen: one volatile access => one instruction"]
     return ctx.finish(
         "other",
